@@ -19,6 +19,19 @@ def _on_alarm(signum, frame):
     raise Hang("operation did not return within the watchdog limit")
 
 
+def with_watchdog(fn, limit):
+    """Run fn() under a SIGALRM watchdog; raises Hang when it does not return within `limit` seconds."""
+    import signal
+
+    old = signal.signal(signal.SIGALRM, _on_alarm)
+    signal.alarm(limit)
+    try:
+        return fn()
+    finally:
+        signal.alarm(0)
+        signal.signal(signal.SIGALRM, old)
+
+
 def check_image(ctx, fmt, img, view, built, rng, **kw):
     """Watchdog wrapper: a reader that does not return within `limit` seconds is a violation, not a hung check."""
     import signal
